@@ -61,7 +61,8 @@ def obligations(prop, log, tier="quick"):
     entry = table.get(prop)
     if entry is None:
         return 0, 0, ["no obligations registered for %s" % prop], []
-    module = entry["module"]
+    modules = entry["module"] if isinstance(entry["module"], list) else [entry["module"]]
+    module = modules[0]
     theorems = entry["theorems"]
     broken = []
     # regenerate source-anchored tables (a changed table changes the model, the build re-checks the proofs)
@@ -72,7 +73,7 @@ def obligations(prop, log, tier="quick"):
             log.append("tables: " + note)
     except Exception as e:  # the extractor never raises an alarm by itself
         log.append("tables: extractor failed (%s: %s); committed tables used" % (type(e).__name__, e))
-    rc, out = sh(["lake", "build", "drv", module], cwd=LEAN, timeout=1500)
+    rc, out = sh(["lake", "build", "drv"] + modules, cwd=LEAN, timeout=1500)
     if rc != 0:
         log.append(out[-3000:])
         # which theorem files failed
@@ -84,7 +85,10 @@ def obligations(prop, log, tier="quick"):
             broken.append("driver build failed")
         return len(theorems), 0, broken, theorems
     # forbidden constructs in the files the property depends on
-    for mod, path in lean_deps(module).items():
+    deps = {}
+    for m_ in modules:
+        lean_deps(m_, deps)
+    for mod, path in deps.items():
         for i, line in enumerate(strip_comments(open(path).read()).splitlines(), 1):
             if FORBIDDEN.search(line):
                 broken.append("forbidden construct in %s:%d: %s" % (mod, i, line.strip()[:80]))
@@ -93,7 +97,8 @@ def obligations(prop, log, tier="quick"):
     os.makedirs(adir, exist_ok=True)
     afile = os.path.join(adir, prop + ".lean")
     with open(afile, "w") as f:
-        f.write("import %s\n" % module)
+        for m_ in modules:
+            f.write("import %s\n" % m_)
         for t in theorems:
             f.write("#print axioms %s\n" % t)
     rc, out = sh(["lake", "env", "lean", afile], cwd=LEAN, timeout=900)
@@ -113,7 +118,7 @@ def obligations(prop, log, tier="quick"):
         broken.append("axiom audit failed: " + out[-300:])
     if tier == "thorough":
         # independent re-check of the compiled module by the toolchain's external checker
-        rc, out = sh(["lake", "env", "leanchecker", module], cwd=LEAN, timeout=1500)
+        rc, out = sh(["lake", "env", "leanchecker"] + modules, cwd=LEAN, timeout=1500)
         if rc != 0:
             broken.append("leanchecker rejected %s: %s" % (module, out[-300:]))
         else:
